@@ -349,13 +349,28 @@ where
             stopped = "max_polls";
             break;
         }
+        // file-backed entity: the file is truncated (never extended) just before poll number `k`
+        let mut ftrunc: i64 = -1;
+        if rs.run == "main" {
+            if let Some(t) = case.get("ftrunc").and_then(|t| t.as_array()) {
+                if t[0].as_u64() == Some(polls) {
+                    if let Ok(f) = std::fs::OpenOptions::new().write(true).open(file_path(case)) {
+                        let cur = f.metadata().map(|m| m.len()).unwrap_or(0);
+                        let nl = t[1].as_u64().unwrap_or(0).min(cur);
+                        if f.set_len(nl).is_ok() {
+                            ftrunc = nl as i64;
+                        }
+                    }
+                }
+            }
+        }
         polls += 1;
         let pre = catch(|| (body.size_hint(), body.is_end_stream()));
         let (hint, eos) = match pre {
             Ok(p) => p,
             Err(msg) => {
                 out.emit(json!({"ev": "poll", "res": "panic", "where": "hint", "msg": msg, "n": 0, "nexts": [],
-                                "lo": limbs(0), "up": none(), "eos": false, "errk": "", "env": drain_env(&log)}));
+                                "lo": limbs(0), "up": none(), "eos": false, "errk": "", "env": drain_env(&log), "ftrunc": ftrunc}));
                 stopped = "panic";
                 break;
             }
@@ -365,7 +380,7 @@ where
         let r = catch(|| Pin::as_mut(&mut body).poll_frame(&mut cx));
         let env = drain_env(&log);
         let nexts = log.lock().unwrap().nexts_json();
-        let mut ev = json!({"ev": "poll", "lo": lo, "up": up, "eos": eos, "n": 0, "errk": "", "env": env, "nexts": nexts});
+        let mut ev = json!({"ev": "poll", "lo": lo, "up": up, "eos": eos, "n": 0, "errk": "", "env": env, "nexts": nexts, "ftrunc": ftrunc});
         match r {
             Err(msg) => {
                 ev["res"] = json!("panic");
